@@ -32,6 +32,17 @@ Proof.
   apply nonterm_app; [|apply IH; exact H]. apply Forall_map. eapply Forall_impl; [|exact H]. intros t. apply subst_nonterm.
 Qed.
 
+Lemma f_mark_rd f : f_rd (f_mark f) = f_rd f.
+Proof. destruct f as [a b c d e [w|] g h [|dp] j k]; reflexivity. Qed.
+Lemma f_mark_out f : f_out (f_mark f) = f_out f.
+Proof. destruct f as [a b c d e [w|] g h [|dp] j k]; reflexivity. Qed.
+Lemma f_mark_content f : f_content (f_mark f) = f_content f.
+Proof. destruct f as [a b c d e [w|] g h [|dp] j k]; reflexivity. Qed.
+Lemma f_mark_depth f : f_depth (f_mark f) = f_depth f.
+Proof. destruct f as [a b c d e [w|] g h [|dp] j k]; reflexivity. Qed.
+Lemma f_mark_labels f : f_labels (f_mark f) = f_labels f.
+Proof. destruct f as [a b c d e [w|] g h [|dp] j k]; reflexivity. Qed.
+
 Lemma rof_skip_ok n : forall f, Forall nonterm (f_out f) -> Forall nonterm (f_content f) -> f_stuck f = false ->
   let '(f1, b) := rof_skip n f in
   f_stuck f1 = false /\ Forall nonterm (f_content f1) /\
@@ -41,8 +52,24 @@ Proof.
   - split; [exact H3|]. split; [exact H2|apply okfinal_nonterm; exact H1].
   - destruct (t_typ (f_nt f)) eqn:E; try (apply IH; cbn; assumption).
     + cbn. split; [exact H3|]. split; [exact H2|apply okfinal_snoc; exact H1].
+    + cbn. split; [exact H3|]. split; [exact H2|exact H1].
     + split; [exact H3|]. split; [exact H2|exact H1].
-    + cbn. split; [exact H3|]. split; [exact H2|apply okfinal_snoc; exact H1].
+Qed.
+
+Lemma emit_first_nonterm cl ll labs at_ body : forall j, Forall nonterm labs -> Forall nonterm body ->
+  Forall nonterm (emit_first j at_ labs cl ll body).
+Proof.
+  induction body as [|t r IH]; intros j Hl Hb; cbn [emit_first]; [constructor|].
+  inversion Hb as [|t' r' Ht Hr]; subst.
+  apply nonterm_app.
+  - destruct at_ as [a|]; [destruct (Nat.eqb a j); [exact Hl|constructor]|constructor].
+  - constructor; [apply subst_nonterm; exact Ht|apply IH; assumption].
+Qed.
+Lemma emit_body_nonterm n at_ cl ll body : Forall nonterm body -> Forall nonterm (emit_body n at_ cl ll body).
+Proof.
+  intros Hb. unfold emit_body. destruct n as [|n].
+  - destruct at_; [apply nonterm_texts|constructor].
+  - apply nonterm_app; [apply emit_first_nonterm; [apply nonterm_texts|exact Hb]|apply repeat_nonterm; exact Hb].
 Qed.
 
 Lemma stream_loop_ok n : forall f, Forall nonterm (f_out f) -> f_stuck f = false ->
@@ -97,12 +124,12 @@ Proof.
   - (* forInnerLabels *)
     destruct (t_typ (f_nt f)) eqn:E; try (inversion H; subst; cbn; repeat split; try assumption; discriminate).
     destruct (tok_is_pseudo (f_nt f)).
-    + destruct (lower_is (t_val (f_nt f)) "for"); [inversion H; subst; cbn; repeat split; try assumption; discriminate|].
+    + destruct (lower_is (t_val (f_nt f)) "for");
+        [inversion H; subst; unfold f_mark; destruct (f_depth f), (f_labels_at f); cbn; repeat split; try assumption; discriminate|].
       destruct (lower_is (t_val (f_nt f)) "rof"); [|inversion H; subst; cbn; repeat split; try assumption; discriminate].
       destruct (f_depth f); inversion H; subst; cbn; repeat split; try assumption; discriminate.
     + destruct (tok_is_op (f_nt f)); [|inversion H; subst; cbn; repeat split; try assumption; discriminate].
-      destruct (f_to_write f) as [ls|]; inversion H; subst; cbn; repeat split; try assumption; try discriminate.
-      apply nonterm_app; [exact J1|apply nonterm_texts].
+      inversion H; subst; unfold f_mark; destruct (f_depth f), (f_labels_at f); cbn; repeat split; try assumption; discriminate.
   - (* forInnerEmitLabels *)
     inversion H; subst. cbn. repeat split; try assumption; try discriminate.
     apply nonterm_app; [exact J2|apply nonterm_texts].
@@ -116,7 +143,7 @@ Proof.
     destruct (rof_skip (S (S (length (r_toks (f_rd f))))) f) as [f1 b]. destruct R as [R1 [R2 R3]].
     destruct b; inversion H; subst; cbn.
     + repeat split; try assumption; try discriminate.
-      apply nonterm_app; [exact R3|]. apply repeat_nonterm. exact R2.
+      apply nonterm_app; [exact R3|]. apply emit_body_nonterm. exact R2.
     + split; assumption.
   - (* forEmitConsumeStream *)
     injection H as <- <-. exact (stream_loop_ok (S (S (length (r_toks (f_rd f))))) f J1 J3).
